@@ -14,6 +14,25 @@ CLAIMED = {
              "executable transliteration go_clean compared on every input (theorem go_clean_agrees not yet proved: partial).",
         technique="Coq proof (loop invariant, denotational normal form) + exhaustive correspondence",
         ref="§7 C14"),
+    "C16": dict(
+        text="Coq theorems over the mirror of sys::relative for all clean absolute paths (any depth, any names): the result is "
+             "'..'* followed by normal components, its '..' count is the number of base components below the common prefix, it is "
+             "relative, clean(join(base, result)) = path, and path == base returns path. Mirror, spec and the property's own "
+             "checker are run against the real code on every ordered pair of a bounded namespace plus random deep pairs.",
+        note="Trusted: Coq kernel; Base/PathLex.v model of std::path; extraction, OCaml driver, Rust harness, Python differ.",
+        technique="Coq proof (induction over the common prefix) + exhaustive correspondence",
+        ref="§7 C16"),
+    "C15": dict(
+        text="Coq theorems over the mirrors of the lexical helpers, for all strings: trim_prefix/trim_suffix inverse and identity laws, "
+             "ext/trim_ext split (outside the recorded class KF-C15-ext, with a refutation witness inside it), name = base minus "
+             "extension, mash components / containment / rendering, has* = string containment, concat, parse_paths. Every helper is "
+             "compared with its mirror, and every law of the statement is evaluated on the real code, exhaustively on short "
+             "multi-byte strings and randomly beyond. Partial: the splitting laws of dir/base, first/trim_first, last/trim_last and the "
+             "closed form of trim_protocol are so far carried by the exhaustive law streams, not yet by theorems.",
+        note="Trusted: Coq kernel; Base/PathLex.v + Base/Str.v models of std::path / str (validated by the std_* streams); "
+             "to_lowercase enters only through ASCII letters; extraction, driver, harness, differ.",
+        technique="Coq proof (list/segment lemmas) + exhaustive correspondence + law evaluation on the implementation",
+        ref="§7 C15"),
 }
 
 NOT_APPLICABLE = {}
